@@ -63,7 +63,31 @@ impl core::ops::Deref for Bytes {
     fn deref(&self) -> (r: &[u8]) ensures r@ == self@ { unimplemented!() }
 }
 
+impl core::convert::AsRef<[u8]> for Bytes {
+    #[verifier::external_body]
+    fn as_ref(&self) -> (r: &[u8]) ensures r@ == self@ { unimplemented!() }
+}
+impl core::convert::AsRef<[u8]> for BytesMut {
+    #[verifier::external_body]
+    fn as_ref(&self) -> (r: &[u8]) ensures r@ == self@ { unimplemented!() }
+}
+// Bytes == Bytes compares contents
+impl vstd::std_specs::cmp::PartialEqSpecImpl for Bytes {
+    open spec fn obeys_eq_spec() -> bool { true }
+    open spec fn eq_spec(&self, other: &Bytes) -> bool { self@ == other@ }
+}
+impl PartialEq for Bytes {
+    #[verifier::external_body]
+    fn eq(&self, other: &Bytes) -> (r: bool) ensures r == (self@ == other@) { unimplemented!() }
+}
+
 impl Bytes {
+    #[verifier::external_body]
+    pub fn to_vec(&self) -> (r: Vec<u8>) ensures r@ == self@ { unimplemented!() }
+    #[verifier::external_body]
+    pub fn from_static(s: &'static [u8]) -> (r: Bytes) ensures r@ == s@ { unimplemented!() }
+    #[verifier::external_body]
+    pub fn truncate(&mut self, n: usize) ensures final(self)@ == (if n < old(self)@.len() { old(self)@.subrange(0, n as int) } else { old(self)@ }) { unimplemented!() }
     // Bytes::from(String): takes over the string's bytes
     #[verifier::external_body]
     pub fn from(s: String) -> (r: Bytes) ensures r@ == string_bytes(s) { unimplemented!() }
@@ -79,6 +103,10 @@ impl Bytes {
 }
 
 impl BytesMut {
+    #[verifier::external_body]
+    pub fn to_vec(&self) -> (r: Vec<u8>) ensures r@ == self@ { unimplemented!() }
+    #[verifier::external_body]
+    pub fn truncate(&mut self, n: usize) ensures final(self)@ == (if n < old(self)@.len() { old(self)@.subrange(0, n as int) } else { old(self)@ }), final(self).cap() == old(self).cap() { unimplemented!() }
     #[verifier::external_body]
     pub fn new() -> (r: BytesMut) ensures r@ == Seq::<u8>::empty() { unimplemented!() }
     #[verifier::external_body]
